@@ -45,8 +45,8 @@ def main():
     verify = load_jsonl(rest[:split])
     matrix = load_jsonl(rest[split + 1:])
     n = 0
-    for sub in ("seed", "seed2", "seed3", "seed4", "seed5", "seed6"):
-        for d in sorted(glob.glob(os.path.join(keep, sub, "C*", "[A-L]"))):
+    for sub in ("seed", "seed2", "seed3", "seed4", "seed5", "seed6", "seed7"):
+        for d in sorted(glob.glob(os.path.join(keep, sub, "C*", "[A-N]"))):
             pid, var = d.split("/")[-2], d.split("/")[-1]
             name = "%s-%s" % (pid, var)
             v = verify.get(name)
